@@ -92,3 +92,7 @@ def cross(res):
 
 def search(rng, ops, broken):
     return cases(rng, "quick")
+
+
+# tie theorems (substrings of SLV.Gen.*Tie theorem names) this property's operators depend on
+TIE = ['inverse', 'gen_mbr', 'merge', 'product', 'max_uncertainty', 'Simplex_vacuous', 'is_vacuous', 'is_dogmatic', 'normalize_prob_dist', 'Simplex_normalized', 'OpinionRef_projection', 'Simplex_projection']
